@@ -29,7 +29,7 @@ RULE = ("stream midrun: 2-6 queued tests run by ONE TestRegistry::runAllTests, a
         "countPlugins/getFirstPlugin/getPluginByName (also by the sentinel's name) observed after every chain operation; "
         "chains of 0-8 recording plugins + the real SetPointerPlugin at a random position, random enable patterns, "
         "install/remove/enable/disable/reset/get interleaved with 1-10 consecutive scripted tests doing 0-40 UT_PTR_SET "
-        "redirections over 40 pointers (targets drawn from a small subset so repeats are the rule; 32, 33 and more entries "
+        "(and, as <setup>/<body>/<teardown>, every way of ending in setup() and teardown() too, rethrow off) redirections over 40 pointers (targets drawn from a small subset so repeats are the rule; 32, 33 and more entries "
         "frequent) and ending by pass / FAIL / FAIL_TEXT_C / std::runtime_error / throw 42; the pointer plugin is "
         "disabled/enabled, removed by name and replaced by a NEWLY CONSTRUCTED one between tests (stream setlife: tests "
         "while it is inactive, also up to the limit across tests, then a fresh or the re-enabled plugin and short tests on "
@@ -40,10 +40,25 @@ OUTCOMES = ["pass", "pass", "fail", "failc", "throw", "throwint"]
 NAMES = ["p0", "p1", "p2", "p3", "p4", "p5", "p6", "p7"]
 
 
+ENDS = ["pass", "fail", "failc", "throw", "throwint"]
+
+
+def outcome3(rng, outcomes=OUTCOMES):
+    """body only, or <setup>/<body>/<teardown> with every way of ending in every phase"""
+    if rng.random() < 0.55:
+        return rng.choice(outcomes)
+    x = rng.random()
+    if x < 0.45:
+        return "pass/%s/%s" % (rng.choice(outcomes), rng.choice(ENDS[1:]))      # teardown ends badly after any body
+    if x < 0.75:
+        return "%s/%s/%s" % (rng.choice(ENDS[1:]), rng.choice(outcomes), rng.choice(["pass", "pass"] + ENDS[1:]))   # setup ends badly: no body
+    return "%s/%s/%s" % (rng.choice(ENDS), rng.choice(ENDS), rng.choice(ENDS))
+
+
 def run_line(rng, outcomes=OUTCOMES):
     x = rng.random()
     kind = "" if x < 0.75 else " sep" if x < 0.87 else " ign" if x < 0.95 else " runign"
-    return "run %s%s" % (rng.choice(outcomes), kind)
+    return "run %s%s" % (outcome3(rng, outcomes), kind)
 
 
 def gen_test(rng):
@@ -194,19 +209,21 @@ def gen_batch(rng):
             for _ in range(nsets):
                 ops.append("set %d %d" % (rng.choice(pool), rng.randrange(64)))
             bm, pm = "-", "-"
+            oc = outcome3(rng)
+            changes = nsets <= 32 and ("/" not in oc or oc.startswith("pass/"))    # the body runs and reaches its change
             before = list(installed)          # only these see this test's post action
             x = rng.random()
             free = [q for q in range(8) if q not in installed]
             if x < 0.35 and free:
                 r = rng.choice(free)
                 bm = "i%d" % r
-                if nsets <= 32:
+                if changes:
                     installed.insert(0, r)
             elif x < 0.6 and installed:
                 # the head, the last one, or any
                 r = rng.choice([installed[0], installed[-1], rng.choice(installed)])
                 bm = "rp%d" % r
-                if nsets <= 32:
+                if changes:
                     installed.remove(r)
             elif x < 0.65 and has_set:
                 bm = "rSetPointerPlugin"
@@ -222,7 +239,7 @@ def gen_batch(rng):
                     r = rng.choice(installed)
                     pm = "%d:rp%d" % (actor, r)
                     installed.remove(r)
-            ops.append("test %s %s %s" % (rng.choice(OUTCOMES), bm, pm))
+            ops.append("test %s %s %s" % (oc, bm, pm))
         ops.append("runall")
         if rng.random() < 0.5:
             ops.extend(small_test(rng, rng.sample(range(52), 2)))
@@ -277,7 +294,12 @@ def observe(r, rep):
         elif l.startswith("> set "):
             locs.append(l.split()[2])
         elif l.startswith("> run "):
-            rep.count("branch.outcome_" + l.split()[2])
+            ph = l.split()[2].split("/")
+            rep.count("branch.outcome_" + ph[1])
+            if ph[0] != "pass":
+                rep.count("branch.setup_ends_" + ph[0])
+            if ph[2] != "pass":
+                rep.count("branch.teardown_ends_" + ph[2])
             rep.count("branch.run_" + l.split()[3])
             if any(int(x) >= 40 for x in locs):
                 rep.count("branch.typed_pointer_redirected")
